@@ -13,7 +13,7 @@ def run_script(ck, binp, cases, extra=None, timeout=1200):
     os.makedirs(d, exist_ok=True)
     path = os.path.join(d, "script.json")
     json.dump(cases, open(path, "w"))
-    rc, out, err = vlib.sh2([binp, "-script", path] + (extra or []), timeout=timeout)
+    rc, out, err = vlib.sh2([binp, "-script", path, "-budget", "120"] + (extra or []), timeout=timeout)
     res = []
     for line in out.splitlines():
         if line.startswith("{"):
@@ -21,16 +21,20 @@ def run_script(ck, binp, cases, extra=None, timeout=1200):
     return res
 
 
-def shrink(ck, binp, case, key, oracle, extra=None, budget=14):
+def shrink(ck, binp, case, key, oracle, extra=None, budget=14, seconds=45):
     """Greedy removal of steps while the oracle still reports `key`.
-    Returns the smallest failing case found (the observed one)."""
+    Returns the smallest failing case found (the observed one).  Stops after
+    `budget` runs or `seconds` of wall clock (on a defective tree every run
+    may cost observation bounds)."""
+    import time
     best = case
     steps = list(case.get("steps") or [])
     if len(steps) <= 1:
         return best
     runs = 0
+    t0 = time.time()
     i = len(steps) - 1
-    while i >= 0 and runs < budget and len(steps) > 1:
+    while i >= 0 and runs < budget and len(steps) > 1 and time.time() - t0 < seconds:
         trial = steps[:i] + steps[i + 1:]
         got = run_script(ck, binp, [dict(case, steps=trial)], extra)
         runs += 1
